@@ -1,4 +1,4 @@
-import Mkdb.Model.Csv
+import Mkdb.Proofs.Csv
 /-!
 # C19 — CSV import stores every accepted record faithfully
 
@@ -62,6 +62,25 @@ theorem C19_conv_field (ty : DataType) (f : Bytes) :
     have : (f == nullMarker) = false := by simpa using h
     simp only [convField, this, Bool.false_eq_true, ↓reduceIte]
     cases ty <;> rfl
+
+/-- **C19.convert**: an accepted record is stored as exactly one row with one value per
+schema column; the column that is the i-th destination column holds the conversion (to
+that column's type) of the record's field number `srcCols[i]`, every column that is not a
+destination column is NULL.  For all schemas with distinct column names, all mappings
+naming each destination once, all records. -/
+theorem C19_convert (cfg : Cfg) (types : List DataType) (rec : List Bytes) (row : List Val)
+    (hschema : (cfg.schema.map (·.name)).Nodup)
+    (hdst : cfg.dstCols.Nodup)
+    (htypes : colTypes cfg.schema cfg.dstCols = some types)
+    (hlen : cfg.srcCols.length = cfg.dstCols.length)
+    (hfields : ∀ f ∈ rec, f.length < 2 ^ 32)
+    (h : importRecord cfg types (some rec) = some row) :
+    row.length = cfg.schema.length ∧
+    ∀ (k : Nat) (fd : FieldDef), cfg.schema[k]? = some fd →
+      (∀ (i : Nat), cfg.dstCols[i]? = some fd.name →
+          ∃ idx f v, cfg.srcCols[i]? = some idx ∧ rec[idx]? = some f ∧ convField fd.ty f = some v ∧ row[k]? = some v) ∧
+      (fd.name ∉ cfg.dstCols → row[k]? = some .null) :=
+  convert_spec cfg types rec row hschema hdst htypes hlen hfields h
 
 example : importRecord ⟨[⟨"a", .bigint, 0⟩, ⟨"b", .varchar, 255⟩], ["b", "a"], [1, 0]⟩ [.varchar, .bigint]
     (some [[49, 50, 51], [120]]) = some [.int 123, .str [120]] := by decide
